@@ -167,10 +167,10 @@ pub fn run(ctx: &Ctx) -> usize {
 		violations += 1;
 	}
 	let maxlen = ctx.n(300, 3000);
-	if run_dna(ctx, "dna", ctx.n(40_000, 1_000_000), 1024, |dna, counting| check_ids(ctx, &gen_ids(dna, maxlen), "dna", counting)).is_some() {
+	if run_dna(ctx, "dna", ctx.n(100_000, 5_000_000), 1024, |dna, counting| check_ids(ctx, &gen_ids(dna, maxlen), "dna", counting)).is_some() {
 		violations += 1;
 	}
-	if run_dna(ctx, "replay_game", ctx.n(3000, 100_000), dna_max(ctx), |dna, counting| game_case(ctx, dna, counting)).is_some() {
+	if run_dna(ctx, "replay_game", ctx.n(20_000, 1_000_000), dna_max(ctx), |dna, counting| game_case(ctx, dna, counting)).is_some() {
 		violations += 1;
 	}
 	violations
